@@ -239,6 +239,7 @@ static size_t fmt_dump(char* b, size_t cap, Slot* s) {   /* uses cur (read_rep) 
 /* ---- direct oracle on the public interface ---- */
 static int same_ent(int k, Ent a, Ent b) { return a.val == b.val && (k != K_T || a.id == b.id); }
 
+static int quiet_api = 0;
 static void api_checks(Slot* s, int force_iter) {
   var exc; size_t n = s->n; int k = s->kind;
   volatile size_t L = 0;
@@ -327,7 +328,7 @@ static void check_state(Slot* s, int sorted_by, int force_iter) {
       ref_reserve(s, cur_n); entcpy(s->ref, cur, cur_n); s->n = cur_n;
     }
   }
-  api_checks(s, force_iter);
+  if (!quiet_api) api_checks(s, force_iter);
   if (s->n > st_maxn) st_maxn = s->n;
 }
 
@@ -467,6 +468,10 @@ int main(int argc, char** argv) {
   char rb[64];
   for (size_t li = 0; li < nl; li++) {
     char* l = lines[li]; cur_line = li + 1;
+    /* `#!quiet on|off` (a comment for the model driver): while quiet the oracle compares only the representation it reads white-box and
+       makes no calls of its own through the public interface, so that state hidden inside the container (a cached cursor, a memo) is
+       touched by the operations of the op file alone and an index-dependent fault is not healed by the oracle's own sweep of get() */
+    if (!strncmp(l, "#!quiet ", 8)) { quiet_api = !strcmp(l + 8, "on"); continue; }
     if (v_skippable(l)) continue;
     size_t nt = 0; { char* sv; for (char* t = strtok_r(l, " ", &sv); t && nt < MAXTOK; t = strtok_r(NULL, " ", &sv)) toks[nt++] = t; }
     if (nt == 0) continue;
